@@ -51,7 +51,9 @@ func (s c33Store) ClaimLease(ctx context.Context, topic string, partition int32,
 	}
 	return checkpoint.Lease{Topic: topic, Partition: partition, OwnerID: ownerID}, nil
 }
-func (s c33Store) RenewLease(ctx context.Context, lease checkpoint.Lease) error { return s.w.Renew(ctx) }
+func (s c33Store) RenewLease(ctx context.Context, lease checkpoint.Lease) error {
+	return s.w.Renew(ctx)
+}
 func (s c33Store) ReleaseLease(ctx context.Context, lease checkpoint.Lease) error {
 	s.w.Release()
 	return nil
